@@ -165,7 +165,75 @@ def bounded_checks(reg, tier, seed):
     return [{'name': 'native grammar sweep of request-targets vs urllib.parse', 'bounded': True,
              'bound': '%d hosts x %d ports x %d userinfo x %d paths, absolute- / authority- / origin-form, 3 damaged variants' % (
                  len(hosts), len(ports), len(users), len(paths)),
-             'cases': n, 'violations': bad[:3]}]
+             'cases': n, 'violations': bad[:3]}, connect_dispatch_sweep(hosts)]
+
+
+def connect_dispatch_sweep(hosts):
+    """The real new_socket_connection / TcpServerConnection.connect with a recording fake socket module: for
+    every host spelling the parser hands on (names, IPv4, bracketed IPv6) the address given to the socket
+    layer must be exactly the named host -- IPv6 literals without their brackets -- and the named port."""
+    import ipaddress
+    import socket as real_socket
+    from unittest import mock
+    import proxy.common.utils as U
+    from proxy.common.utils import text_
+    from proxy.http.parser import HttpParser
+    from proxy.core.connection import TcpServerConnection
+    bad, n = [], 0
+    for host in hosts:
+        for port in (80, 8443):
+            rec = {'connect': [], 'create_connection': []}
+
+            class FakeSock(object):
+                def __init__(self, family, *a):
+                    self.family = family
+
+                def settimeout(self, t):
+                    pass
+
+                def connect(self, address):
+                    if not isinstance(address[0], str) or address[0].startswith('['):
+                        raise real_socket.gaierror(-2, 'Name or service not known')
+                    ipaddress.ip_address(address[0])      # a literal family socket resolves nothing
+                    rec['connect'].append((self.family, address))
+
+                def setblocking(self, f):
+                    pass
+            fake = mock.MagicMock()
+            fake.socket = FakeSock
+            fake.AF_INET, fake.AF_INET6, fake.SOCK_STREAM = real_socket.AF_INET, real_socket.AF_INET6, real_socket.SOCK_STREAM
+            fake.gaierror = real_socket.gaierror
+
+            def create_connection(address, timeout=None, source_address=None):
+                rec['create_connection'].append(address)
+                return FakeSock(None)
+            fake.create_connection = create_connection
+            try:
+                req = HttpParser.request(('CONNECT %s:%d HTTP/1.1\r\n\r\n' % (host, port)).encode())
+            except Exception:       # noqa  (IDN etc.: the parser's business, swept above)
+                continue
+            n += 1
+            case = {'target': 'CONNECT %s:%d' % (host, port)}
+            bare = host[1:-1] if host.startswith('[') else host
+            with mock.patch.object(U, 'socket', fake):
+                try:
+                    TcpServerConnection(text_(req.host), req.port).connect()
+                except Exception as e:      # noqa
+                    bad.append(dict(case, what='connect raised %r for a well-formed target' % (e,)))
+                    continue
+            try:
+                ver = ipaddress.ip_address(bare).version
+            except ValueError:
+                ver = None
+            if ver is None:
+                if rec['connect'] or rec['create_connection'] != [(text_(req.host), port)]:
+                    bad.append(dict(case, what='name not handed to the resolver as (%r, %d): %r' % (bare, port, rec)))
+            else:
+                want = (real_socket.AF_INET, (bare, port)) if ver == 4 else (real_socket.AF_INET6, (bare, port, 0, 0))
+                if rec['create_connection'] or [(f, tuple(a)) for f, a in rec['connect']] != [want]:
+                    bad.append(dict(case, what='literal not connected as %r: %r' % (want, rec)))
+    return {'name': 'connect dispatch of new_socket_connection with a recording socket layer (names / IPv4 / bracketed IPv6)', 'bounded': True,
+            'bound': '%d host spellings x 2 ports' % len(hosts), 'cases': n, 'violations': bad[:3]}
 
 
 CROSSCHECK = ['HttpParser._set_line_attributes', 'Url._parse']
